@@ -15,7 +15,7 @@ EXPLANATION = (
     "of External::node in the compiler handles every node kind the resolver can produce. The equality of resolver and "
     "evaluator bindings for every program follows from these plus 'functions are top-level and closed', which is an "
     "argument, not a check.")
-EXPLANATION += ' Further clauses: (R6) every declaration is pre-declared (accessor completeness); (R7) JOIN-AGREE (shared C10.R5); (R8) NAMING (shared C09.R2); (R9) FRESH-SCOPE - Env::open pushes a newly created empty map, Env::close drops the popped one, nothing else touches the stack. (R10) NAMES-STRUCTURAL - typed accessors never compare token texts; the scope key keeps identifier and qualifier as two components stored unchanged. R4 also requires the module scope to be opened above the built-ins; (R11) GRAMMAR-AGREE (shared C02.R14).'
+EXPLANATION += " Further clauses: (R6) every declaration is pre-declared (accessor completeness); (R7) JOIN-AGREE (shared C10.R5); (R8) NAMING (shared C09.R2); (R9) FRESH-SCOPE - Env::open pushes a newly created empty map, Env::close drops the popped one, nothing else touches the stack. (R10) NAMES-STRUCTURAL - typed accessors never compare token texts; the scope key keeps identifier and qualifier as two components stored unchanged. R4 also requires the module scope to be opened above the built-ins; (R11) GRAMMAR-AGREE (shared C02.R14). R4 also requires imported names to live in a scope below the module's declarations; (R12) ARITY (shared C07.R4/R1)."
 TECHNIQUE = "static analysis: MIR must-pass-through / dominance path rules + HIR kind-set agreement"
 
 
